@@ -28,14 +28,41 @@ func genCrashHistory(t *rapid.T) txh.History {
 }
 
 type crashOutcome struct {
-	site      string
-	state     string // pre | post
-	retryErr  string
-	logsLeft  []string
-	orphans   []string
-	problems  []string
-	warmupErr []string
-	countOff  bool
+	site       string
+	state      string // pre | post
+	retryErr   string
+	logsLeft   []string
+	orphans    []string
+	problems   []string
+	warmupErr  []string
+	countOff   bool
+	staleRetry bool // the retry failed with the known C04 finding's signature
+}
+
+// knownStale: the recorded C04 finding (the item tracker keeps pointers into a node's slot array; an add or
+// remove later in the same transaction shifts the slots; a commit that has to refetch and merge then replays
+// the tracked read against the wrong key). A crash image with an un-aged node reservation makes the retry
+// refetch and merge, so the same defect shows here for programs of that shape.
+var knownStale = stats.Known("C04", "tracked-item-pointer-stale-after-slot-shift")
+
+// stalePointerShape: some operation that tracks an existing item (read, scan, update, failed add) is followed,
+// in the same store, by an add or remove.
+func stalePointerShape(p txh.TxnProg) bool {
+	touched := map[int]bool{}
+	for _, o := range p.Ops {
+		switch o.Kind {
+		case "add", "addIfNotExist", "upsert", "remove", "curRemove":
+			if touched[o.S] {
+				return true
+			}
+		}
+		switch o.Kind {
+		case "count":
+		default:
+			touched[o.S] = true
+		}
+	}
+	return false
 }
 
 // crashCase runs victim (dies at call k) and restart (clock advanced) in child processes and
@@ -129,6 +156,11 @@ func crashCase(h txh.History, k int, after bool, nowOffset int64, warmups int) (
 	}
 	out.retryErr = rr.RetryErr
 	out.warmupErr = rr.WarmupErrs
+	if knownStale && strings.Contains(rr.RetryErr, "refetchAndMergeModifications failed to find item with key") && stalePointerShape(h.Txns[victim]) {
+		out.staleRetry = true
+		out.retryErr = ""
+		return "", out, nil
+	}
 	if rr.RetryErr != "" {
 		return fmt.Sprintf("%s: the stores are not writable afterwards: making the crashed transaction's changes again fails: %s", where, rr.RetryErr), out, nil
 	}
@@ -216,6 +248,10 @@ func TestC08_CrashDuringCommit(t *testing.T) {
 					t.Fatalf("%v", err)
 				}
 				if out == nil {
+					continue
+				}
+				if out.staleRetry {
+					rec.Exclude("the retry went through refetch-and-merge and failed with the recorded C04 finding's signature (stale tracked item pointer)")
 					continue
 				}
 				if msg != "" && os.Getenv("VERIF_COLLECT") != "" {
